@@ -674,6 +674,8 @@ class CallChecker:
             _, line, outcome, tok = emits[0][:4]
             self.oblige('C03', 'rejected-not-sent', valid, 'a value that must be rejected was sent')
             self.oblige('C02', 'rejected-not-sent', valid, 'a value that must be rejected was sent')
+            # C01: a value outside the wire type's range cannot be rendered so that the line parses back to it
+            self.oblige('C01', 'rejected-not-sent', valid, 'a value that must be rejected was sent (the line cannot parse back to the supplied value)')
             okm, cond = line_matches(line, ref)
             if not okm:
                 prop = 'C04' if _decoration_differs(line, ref) else 'C01'
